@@ -31,6 +31,17 @@ class ZeroOV:
         return "0"
 
 
+class Mask:
+    """a boolean selection of orbitals derived from the data (e.g. np.diag(P) != 0)"""
+
+    def __init__(self, why):
+        self.why = why
+
+
+class MaybeBool:
+    """truth value that depends on the data: the guarded block is analysed as taken"""
+
+
 class DensityInterp(TermInterp):
     # ---- object identity of the orbital arrays: `x = y` shares the array, in-place operations (`x *= ..`, `out=x`) are seen
     # through every name of the same array
@@ -79,8 +90,30 @@ class DensityInterp(TermInterp):
         super().stmt(st)
 
     def expr(self, e):
+        if isinstance(e, ast.Call) and dotted(e.func) in ("np.diag", "numpy.diag", "np.diagonal", "numpy.diagonal") and e.args and \
+                self.env.get(ast.unparse(e.args[0])) == "one_density_matrix":
+            return Mask("diag")
+        if isinstance(e, ast.Call) and dotted(e.func) in ("np.all", "np.any", "numpy.all", "numpy.any", "all", "any") and e.args:
+            v = self.expr(e.args[0])
+            if isinstance(v, Mask):
+                return MaybeBool()
+        if isinstance(e, ast.UnaryOp) and isinstance(e.op, ast.Not):
+            v = self.expr(e.operand)
+            if isinstance(v, MaybeBool):
+                return v
+        if isinstance(e, ast.Subscript):
+            parts = e.slice.elts if isinstance(e.slice, ast.Tuple) else [e.slice]
+            masks = []
+            for x in parts:
+                if isinstance(x, ast.Name) and isinstance(self.env.get(x.id), Mask):
+                    masks.append(self.env[x.id])
+            if masks:
+                self.__dict__.setdefault("filters", []).append((e, masks[0]))
+                return self.expr(e.value)  # the same quantity, restricted to the selected orbitals
         if isinstance(e, ast.Compare) and len(e.ops) == 1:
             l, r = self.expr(e.left), self.expr(e.comparators[0])
+            if isinstance(l, Mask) and l.why == "diag":
+                return Mask(f"`{ast.unparse(e)[:50]}` (a test on the diagonal of the density matrix)")
             op = type(e.ops[0])
             num = lambda v: isinstance(v, (int, sp.Rational, sp.Integer, float)) and not isinstance(v, bool)
             fn = {ast.Eq: lambda a, b: a == b, ast.NotEq: lambda a, b: a != b, ast.Lt: lambda a, b: a < b, ast.LtE: lambda a, b: a <= b,
@@ -127,6 +160,13 @@ class DensityInterp(TermInterp):
     def if_stmt(self, st):
         # `if any(orders_one > 2) or any(orders_two > 2):` concrete;  threshold tests are handled by the FLOW rule
         t = st.test
+        try:
+            tv = self.expr(t)
+        except AnalysisError:
+            tv = None
+        if isinstance(tv, MaybeBool):
+            self.block(st.body)
+            return
         if isinstance(t, ast.BoolOp) and isinstance(t.op, ast.Or):
             vals = [self.expr(v) for v in t.values]
             if all(isinstance(v, bool) for v in vals):
@@ -370,32 +410,30 @@ def make_handler(f, ctx, symmetric=True):
 
 
 def threshold_parts(f):
-    """-> (X, head, tail, test, ret): X the array that is returned (clipped); head = the statements computing it; tail = the
-    statements between its last definition and the raising check; test = the `if ...: raise` against `threshold`."""
+    """-> (X, head, region, ret): X = the array that is checked and returned; head = the statements that compute it; region = every
+    statement after its last definition up to and including the return (the negative-value check and the clean-up)."""
     body = f.node.body
-    stop = [k for k, st in enumerate(body) if isinstance(st, ast.If) and st.body and isinstance(st.body[-1], ast.Raise)
-            and "threshold" in ast.unparse(st.test)]
-    if len(stop) != 1:
-        raise AnalysisError("THRESH", f"expected exactly one raising check against `threshold` in {f.name}, found {len(stop)}", f.where())
-    stop = stop[0]
     rets = [st for st in body if isinstance(st, ast.Return)]
     if len(rets) != 1 or body[-1] is not rets[0]:
         raise AnalysisError("THRESH", "expected a single top-level return at the end", f.where())
-    names = sorted({n.id for n in ast.walk(rets[0].value) if isinstance(n, ast.Name)} - {"np", "numpy", "threshold"})
+    funcs = {id(n.func) for n in ast.walk(rets[0].value) if isinstance(n, ast.Call)}
+    names = sorted({n.id for n in ast.walk(rets[0].value) if isinstance(n, ast.Name) and id(n) not in funcs} - {"np", "numpy", "threshold"})
     if len(names) != 1:
         raise AnalysisError("THRESH", f"the returned expression depends on {names}: expected the one checked array", f.where(rets[0]))
     X = names[0]
     last = None
-    for k, st in enumerate(body[:stop]):
+    for k, st in enumerate(body[:-1]):
         for n in ast.walk(st):
-            if isinstance(n, (ast.Assign, ast.AugAssign)):
+            if isinstance(n, (ast.Assign, ast.AugAssign)) and not (isinstance(n, ast.Assign) and isinstance(n.targets[0], ast.Subscript) and
+                                                                    isinstance(n.targets[0].slice, (ast.Compare, ast.Name))):
                 tg = n.targets if isinstance(n, ast.Assign) else [n.target]
                 if any(isinstance(t, ast.Name) and t.id == X or isinstance(t, ast.Subscript) and isinstance(t.value, ast.Name) and t.value.id == X
                        for t in tg):
-                    last = k
+                    if not any("threshold" in ast.unparse(x) for x in ast.walk(n) if isinstance(x, ast.Name)):
+                        last = k
     if last is None:
         raise AnalysisError("THRESH", f"definition of the checked array `{X}` not found", f.where())
-    return X, body[: last + 1], body[last + 1: stop], body[stop], rets[0]
+    return X, body[: last + 1], body[last + 1:], rets[0]
 
 
 def run_fn(repo, name, ctx, env_over=None, symmetric=True, until_threshold_test=False):
@@ -409,6 +447,20 @@ def run_fn(repo, name, ctx, env_over=None, symmetric=True, until_threshold_test=
         it.block(threshold_parts(f)[1])
     else:
         it.run()
+    flt = getattr(it, "filters", [])
+    if flt:
+        node, mask = flt[0]
+        note = f"orbitals are dropped by {mask.why}: a contribution is lost whenever the dropped orbital still couples to a kept one"
+
+        def mark(v):
+            if isinstance(v, Terms):
+                return v.marked(note)
+            if isinstance(v, Table):
+                return v.map(lambda c: c.marked(note) if isinstance(c, Terms) else c)
+            return v
+        it.returns = [(st, mark(v)) for st, v in it.returns]
+        for k in list(it.env):
+            it.env[k] = mark(it.env[k])
     return f, it
 
 
@@ -418,47 +470,25 @@ def tested_variable(f):
 
 
 def threshold_rule(repo, R, name, scale):
-    """raise <=> min < 0 and |min| > threshold (normal form); the returned value passes through clip(min=0)."""
+    """After the array X is computed: raise iff some value is negative with magnitude > threshold; otherwise return scale*X with
+    the negative values replaced by 0 and every other value unchanged.  Decided by case analysis over orderings (see
+    postprocess_counterexample)."""
     f = repo.func(MOD + name)
-    fn = f.node
     if "threshold" not in f.params:
         R.fail("THRESH", f.site, "threshold parameter", f"{name} lost its `threshold` parameter", where=f.where())
         return
-    D = Defs(fn)
-    X, _head, tail, st, ret_st = threshold_parts(f)
-    t = st.test
-    out_sym = sp.Symbol("rho", real=True)
-    thr = sp.Symbol("threshold", real=True)
-    bad = orderings_counterexample(f, X, tail, t)
-    R.check(bad is None, "THRESH", f.site, "raise <=> some value is negative with magnitude > threshold",
-            f"the error condition `{ast.unparse(t)[:90]}` is not `the most negative value exceeds the threshold in magnitude`"
-            + (f": for values {bad[0]} and threshold {bad[1]} the check {'raises' if bad[2] else 'does not raise'}" if bad else ""),
-            where=f.where(st), expected="raise iff min < 0 and abs(min) > threshold", found=ast.unparse(t)[:100])
-    # the min is taken of the very array that is returned, and the return is clip(min=0) of scale * that array
-    E = Elem(f, {p: sp.Symbol(p) for p in f.params}, rule="THRESH")
-
-    class E2(Elem):
-        def on_if(self, st2):
-            return
-    E.__class__ = E2
-    E.lenient = True
-    rets = [ret_st]
-    tested = ast.Name(id=X, ctx=ast.Load())
-    # statements between the test and the return that modify the tested array
-    E.env[tested.id] = out_sym
-    E.env["threshold"] = thr
-    after = [s for s in fn.body if s.lineno > st.lineno]
-    for s in after:
-        if isinstance(s, ast.If):
-            continue
-        E.stmt(s)
-    ret = E.returns[0][1]
-    want_ret = sp.Max(scale * out_sym, 0)
-    okr = sp.simplify(ret - want_ret) == 0
-    R.check(okr, "THRESH", f.site, "return " + ast.unparse(rets[0].value)[:60],
-            "a value that passed the check must be returned unchanged if non-negative and as 0 if negative (clip at zero); "
-            "in particular small positive values must survive",
-            where=f.where(rets[0]), expected=str(want_ret), found=str(ret))
+    D = Defs(f.node)
+    X, _head, region, ret_st = threshold_parts(f)
+    bad = postprocess_counterexample(repo, f, X, region, scale)
+    what = ""
+    if bad:
+        vals, tv, got, want = bad
+        what = f": for values {vals} and threshold {tv} the code {got}, expected: {want}"
+    R.check(bad is None, "THRESH", f.site, "raise <=> some value is negative with magnitude > threshold; else clip at 0",
+            "the negative-value handling differs from `raise when the most negative value exceeds the threshold in magnitude, otherwise return the "
+            "values with negatives replaced by 0 (small positive values survive)`" + what,
+            where=f.where(region[0]) if region else f.where(), expected="raise iff min < 0 and abs(min) > threshold; return clip(min=0)",
+            found=" ; ".join(ast.unparse(x)[:60] for x in region)[:200])
     # threshold reaches the comparison unmodified
     R.check(len([d for d in D.of("threshold") if d[0] != "param"]) == 0, "THRESH", f.site, "threshold unmodified",
             "the threshold is modified before the comparison", where=f.where())
@@ -575,40 +605,149 @@ class _EmptyReduction(Exception):
     """np.min of an empty selection raises ValueError at run time: the call fails, which is not the documented behaviour"""
 
 
-def orderings_counterexample(f, X, tail, test):
-    """The checking code touches the values only through comparisons, abs/negation, selections and min/max: whether it raises
-    depends on the ordering of the values relative to 0 and +-threshold only.  Enumerate arrays of up to three entries over
-    representatives of every such ordering and compare with `exists x: x < 0 and -x > threshold`.  -> None or
-    (values, threshold, raised)."""
+class _Raise(Exception):
+    pass
+
+
+class _Ret(Exception):
+    def __init__(self, v):
+        self.v = v
+
+
+def _ord_exec(stmts, env, f, repo, depth=0):
+    for st in stmts:
+        if isinstance(st, ast.Expr):
+            if not isinstance(st.value, ast.Constant):
+                _ord_call_or_eval(st.value, env, f, repo, depth)
+        elif isinstance(st, ast.Assign) and len(st.targets) == 1:
+            t = st.targets[0]
+            v = _ord_call_or_eval(st.value, env, f, repo, depth)
+            if isinstance(t, ast.Name):
+                env[t.id] = v
+            elif isinstance(t, ast.Subscript) and isinstance(t.value, ast.Name) and isinstance(env.get(t.value.id), list):
+                arr = env[t.value.id]
+                mask = _ord_eval(t.slice, env, f)
+                if not (isinstance(mask, list) and len(mask) == len(arr) and all(isinstance(b, bool) for b in mask)):
+                    raise _Unmodelled(ast.unparse(st)[:60])
+                for k, m in enumerate(mask):
+                    if m:
+                        arr[k] = v[[i for i, mm in enumerate(mask) if mm].index(k)] if isinstance(v, list) else v  # in place: aliases see it
+            else:
+                raise _Unmodelled(ast.unparse(st)[:60])
+        elif isinstance(st, ast.AugAssign) and isinstance(st.target, ast.Name):
+            cur = env[st.target.id]
+            v = _ord_eval(ast.BinOp(left=st.target, op=st.op, right=st.value), env, f)
+            if isinstance(cur, list) and isinstance(v, list):
+                cur[:] = v
+            else:
+                env[st.target.id] = v
+        elif isinstance(st, ast.If):
+            c = _ord_eval(st.test, env, f)
+            if isinstance(c, list):
+                raise _Unmodelled("array-valued condition")
+            _ord_exec(st.body if c else st.orelse, env, f, repo, depth)
+        elif isinstance(st, ast.Raise):
+            raise _Raise()
+        elif isinstance(st, ast.Return):
+            raise _Ret(_ord_call_or_eval(st.value, env, f, repo, depth))
+        elif isinstance(st, ast.Pass):
+            continue
+        else:
+            raise _Unmodelled(type(st).__name__)
+
+
+def _ord_call_or_eval(e, env, f, repo, depth):
+    """expression evaluation with two extensions: calls of gbasis-level helper functions are inlined, and the elementwise
+    clean-up operations (clip / where / maximum / scalar * array) are understood"""
+    if isinstance(e, ast.Call):
+        d = dotted(e.func) or ""
+        short = d.split(".")[-1]
+        g = repo.resolve_name(f.module, d, f) if d and "." not in d else None
+        if hasattr(g, "node") and depth < 2 and not e.keywords:
+            args = [_ord_call_or_eval(a, env, f, repo, depth) for a in e.args]
+            sub = dict(zip(g.params, args))
+            try:
+                _ord_exec(g.node.body, sub, g, repo, depth + 1)
+            except _Ret as r:
+                return r.v
+            return None
+        if (isinstance(e.func, ast.Attribute) and e.func.attr == "clip" and not d.startswith(("np.", "numpy."))) or d in ("np.clip", "numpy.clip"):
+            base = _ord_call_or_eval(e.func.value if not d.startswith(("np.", "numpy.")) else e.args[0], env, f, repo, depth)
+            rest = list(e.args) if not d.startswith(("np.", "numpy.")) else list(e.args[1:])
+            lo = hi = None
+            if rest:
+                lo = rest[0]
+            if len(rest) > 1:
+                hi = rest[1]
+            for k in e.keywords:
+                if k.arg in ("min", "a_min"):
+                    lo = k.value
+                elif k.arg in ("max", "a_max"):
+                    hi = k.value
+                else:
+                    raise _Unmodelled(ast.unparse(e)[:60])
+            lo = None if lo is None else _ord_eval(lo, env, f)
+            hi = None if hi is None else _ord_eval(hi, env, f)
+            cl = lambda x: (x if lo is None or x >= lo else lo) if hi is None or (x if lo is None or x >= lo else lo) <= hi else hi
+            return [cl(x) for x in base] if isinstance(base, list) else cl(base)
+        if d in ("np.where", "numpy.where") and len(e.args) == 3:
+            c, a, b = [_ord_call_or_eval(x, env, f, repo, depth) for x in e.args]
+            if isinstance(c, list):
+                return [(a[k] if isinstance(a, list) else a) if c[k] else (b[k] if isinstance(b, list) else b) for k in range(len(c))]
+        if d in ("np.maximum", "numpy.maximum", "np.minimum", "numpy.minimum", "np.fmax", "np.fmin") and len(e.args) == 2:
+            a, b = [_ord_call_or_eval(x, env, f, repo, depth) for x in e.args]
+            pick = max if "max" in short else min
+            n = len(a) if isinstance(a, list) else len(b) if isinstance(b, list) else None
+            if n is None:
+                return pick(a, b)
+            return [pick(a[k] if isinstance(a, list) else a, b[k] if isinstance(b, list) else b) for k in range(n)]
+        if short == "copy" and isinstance(e.func, ast.Attribute):
+            v = _ord_call_or_eval(e.func.value, env, f, repo, depth)
+            return list(v) if isinstance(v, list) else v
+    if isinstance(e, ast.BinOp) and isinstance(e.op, (ast.Mult, ast.Add, ast.Sub)):
+        l = _ord_call_or_eval(e.left, env, f, repo, depth)
+        r = _ord_call_or_eval(e.right, env, f, repo, depth)
+        op = {ast.Mult: lambda a, b: a * b, ast.Add: lambda a, b: a + b, ast.Sub: lambda a, b: a - b}[type(e.op)]
+        if isinstance(l, list) or isinstance(r, list):
+            n = len(l) if isinstance(l, list) else len(r)
+            return [op(l[k] if isinstance(l, list) else l, r[k] if isinstance(r, list) else r) for k in range(n)]
+        if l is None or r is None or isinstance(l, bool) or isinstance(r, bool):
+            raise _Unmodelled(ast.unparse(e)[:60])
+        return op(l, r)
+    return _ord_eval(e, env, f)
+
+
+def postprocess_counterexample(repo, f, X, region, scale):
+    """The code after X is computed touches the values only through comparisons with 0 / +-threshold, abs, negation, boolean
+    selections and stores, min/max, clip/where and a constant scale: its outcome (raise, or which values are replaced) depends on the
+    ordering of the values relative to 0 and +-threshold only.  It is interpreted (never run) on arrays of up to three
+    representatives of every such ordering and compared with the specification.  -> None or (values, threshold, got, want)."""
+    import itertools
     pts = [sp.Integer(-3), sp.Integer(-2), sp.Integer(-1), sp.Rational(-1, 2), sp.Integer(0), sp.Rational(1, 2), sp.Integer(1), sp.Integer(2), sp.Integer(3)]
     thrs = [sp.Integer(0), sp.Rational(1, 2), sp.Integer(1), sp.Integer(2)]
-    import itertools
     for n in (1, 2, 3):
         for vals in itertools.product(pts, repeat=n):
-            if list(vals) != sorted(vals) and n == 3:
-                # order of the entries: permutations of a 3-array are covered by the 2-arrays' both orders plus sorted triples
+            if n == 3 and list(vals) != sorted(vals):
                 continue
             for tv in thrs:
                 env = {X: list(vals), "threshold": tv}
                 try:
-                    for st in tail:
-                        if isinstance(st, ast.Assign) and len(st.targets) == 1 and isinstance(st.targets[0], ast.Name):
-                            env[st.targets[0].id] = _ord_eval(st.value, env, f)
-                        elif isinstance(st, ast.Expr) and isinstance(st.value, ast.Constant):
-                            continue
-                        else:
-                            raise _Unmodelled(ast.unparse(st)[:60])
-                    got = _ord_eval(test, env, f)
-                    if isinstance(got, list):
-                        raise _Unmodelled("array-valued condition")
-                    got = bool(got)
-                except _EmptyReduction:
-                    got = True  # the check itself fails with an exception for these values
+                    _ord_exec(region, env, f, repo)
+                    got = ("falls off the end",)
+                except _Ret as r:
+                    v = r.v
+                    got = ("returns", [sp.nsimplify(x) for x in v] if isinstance(v, list) else v)
+                except (_Raise, _EmptyReduction):
+                    got = ("raises",)
                 except _Unmodelled as ex:
-                    raise AnalysisError("THRESH", f"the negative-value check uses a construct outside the comparison fragment: {ex}", f.where(test))
-                want = any(v < 0 and -v > tv for v in vals)
+                    raise AnalysisError("THRESH", f"the negative-value handling uses a construct outside the comparison fragment: {ex}", f.where(region[0]))
+                if any(v < 0 and -v > tv for v in vals):
+                    want = ("raises",)
+                else:
+                    want = ("returns", [sp.nsimplify(max(scale * v, 0)) for v in vals])
                 if got != want:
-                    return [str(v) for v in vals], str(tv), got
+                    show = lambda o: o[0] + (" " + str([str(x) for x in o[1]]) if len(o) > 1 and isinstance(o[1], list) else "")
+                    return [str(v) for v in vals], str(tv), show(got), show(want)
     return None
 
 
@@ -641,7 +780,8 @@ def run(repo, R):
         R.note_function(f.qualname)
         ret = it.returns[0][1]
         R.check(isinstance(ret, Terms) and ret.equals(G(ZERO, ZERO)), "TERM", f.site, "sum_ab P_ab phi_a phi_b",
-                "evaluate_density_using_evaluated_orbs is not sum_ab P_ab phi_a phi_b", where=f.where(), expected="G(0,0)", found=str(ret))
+                "evaluate_density_using_evaluated_orbs is not sum_ab P_ab phi_a phi_b" + ("; " + "; ".join(ret.nonlinear) if isinstance(ret, Terms) and ret.nonlinear else ""),
+                where=f.where(), expected="G(0,0)", found=str(ret))
         # symmetric validation dominates the computation
         fnn = f.node
         sym = [st for st in fnn.body if isinstance(st, ast.If) and st.body and isinstance(st.body[-1], ast.Raise)
